@@ -7,7 +7,7 @@ use crate::corpus;
 pub const SPICE: &[&str] = &[
     "e.g.", "i.e.", "N.S.A.", "et al.", "etc.", "vs.", "1st", "22nd", "3rd", "11th", "1980s", "0x1F", "2stuff",
     "1.14.4.", "3.5", "1e5", "$5", "5%", "don't", "it's", "a's", "5's", "O'Neil", "the how", "better then ",
-    "{@link Foo}", "{@link", "[[a|b]]", "[a-z0-9]", "[a-z", "> quote", ">", "\\begin{code}", "\\end{code}",
+    "{@link Foo}", "{@link", "[[a|b]]", "[[a|b|c]]", "[[||]]", "[[|b|c]]", "\\[[a|b|c]]", "[[a|[b](x)|c]]", "[[a|", "![[a|b]]", "[[a]]", "[a][b]", "[^1]", "[^1]: note", "[a-z0-9]", "[a-z", "> quote", ">", "\\begin{code}", "\\end{code}",
     "http://example.com/a?b=c", "https://", "user@example.com", "a@b", "example.com", "www.a.b.", "...", "..", "....",
     "\"", "“quoted”", "'", "’", "—", "–", "…", "😀", "é", "ß", "İ", "ﬁ", "٣", "½", "中文", "한국어", "\u{200b}", "\u{301}",
     "\t", "\t\t ", " \t ", "  ", "\n", "\n\n", "\r\n", "\r", "#", "##", "*", "**", "`", "```", "<b>", "</p>", "&amp;",
@@ -50,9 +50,9 @@ pub fn mutate(rng: &mut Rng, text: &str) -> String {
                 cs.truncate(at);
             }
             1 => {
-                // splice a spice token at a random position
+                // splice a spice token (or markup soup) at a random position
                 let at = rng.below(cs.len() + 1);
-                let sp: Vec<char> = rng.pick(SPICE).chars().collect();
+                let sp: Vec<char> = if rng.chance(1, 3) { soup(rng).chars().collect() } else { rng.pick(SPICE).chars().collect() };
                 let tail = cs.split_off(at);
                 cs.extend(sp);
                 cs.extend(tail);
@@ -81,8 +81,8 @@ pub fn mutate(rng: &mut Rng, text: &str) -> String {
                 }
             }
             5 => {
-                // append spice at the end (end-of-text look-ahead bugs)
-                cs.extend(rng.pick(SPICE).chars());
+                // append spice / soup at the end (end-of-text look-ahead bugs)
+                if rng.chance(1, 3) { cs.extend(soup(rng).chars()); } else { cs.extend(rng.pick(SPICE).chars()); }
             }
             6 => {
                 // trailing whitespace
@@ -140,6 +140,13 @@ pub fn malformed(rng: &mut Rng, max_len: usize) -> String {
         }
     }
     s
+}
+
+/// markup soup: short runs of structural characters and words in combinations nobody listed
+pub fn soup(rng: &mut Rng) -> String {
+    const PARTS: &[&str] = &["[", "]", "[[", "]]", "|", "(", ")", "\\", "`", "*", "**", "_", "<", ">", "#", "!", "{", "}", "@", ":", "/", "-", "=", "~", "$", "^", "&", ";", "'", "\"", ".", ",", " ", " ", "\n", "a", "b", "word", "x1", "1", "é"];
+    let n = rng.range(2, 12);
+    (0..n).map(|_| *rng.pick(PARTS)).collect()
 }
 
 /// one generated plain text (structured 85 %, malformed 15 %)
